@@ -299,6 +299,14 @@ def run(e: Engine, rep: Report):
              'cleared where the envelope is dropped leaks into the next '
              'transaction')
     r720(e, rep)
+    rep.rule('R7.21', 'a quoted string is quoted on both sides: where a '
+             'pattern of the server repeats an alternation one arm of which '
+             'opens with a delimiter (`"`), no other arm accepts that '
+             'delimiter as an ordinary character - otherwise the quoted form '
+             'is optional: a path with an unclosed quote (`<"ab>`) is taken '
+             'apart character by character and reaches the MAIL / RCPT '
+             'callback instead of being refused as malformed')
+    r721(e, rep)
     rep.floor('R7.1', 10, 'callback sites')
     rep.floor('R7.3', 12, 'command handlers')
     rep.floor('R7.4', 10, 'mutable reply sends')
@@ -1729,6 +1737,15 @@ def r720(e: Engine, rep: Report):
                   'edge session')
         return
     rep.functions.add(c.methods['RCPT'].qname)
+    steering = set()
+    for m in c.methods.values():
+        for x in walk_own(m.node):
+            t = x.test if isinstance(x, (ast.If, ast.While, ast.IfExp,
+                                         ast.Assert)) else None
+            if t is not None:
+                steering |= {self_attr(y) for y in ast.walk(t)} - {None}
+    # (a counter kept for the log steers nothing and may span the session)
+    acc = {a: v for a, v in acc.items() if a in steering}
     for a, (m0, x0) in sorted(acc.items()):
         for m, x in binders:
             rep.evaluations += 1
@@ -1757,3 +1774,75 @@ def r720(e: Engine, rep: Report):
            'bound anew in %s' % (sorted(acc) or 'nothing',
                                  sorted({m.name for m, _ in binders})),
            reason='judged one by one', nontrivial=False)
+
+
+# ------------------------------------------------------------------ R7.21
+def r721(e: Engine, rep: Report):
+    from .. import regexast as rx
+    from re import _constants as sc
+    mn = 'slimta.smtp.server'
+    m = e.p.modules.get(mn)
+    if m is None:
+        rep.error('anchor vanished: ' + mn)
+        return
+    n = 0
+
+    def first(alt, flags):
+        """(literal delimiter or None, set of first characters or None)"""
+        for op, av in alt:
+            if op is sc.SUBPATTERN:
+                return first(av[-1], flags)
+            cs = rx.charset((op, av), flags)
+            if cs is None:
+                if op in (sc.MAX_REPEAT, sc.MIN_REPEAT) and av[0] >= 1:
+                    return first(av[2], flags)
+                return None, None
+            return (av if op is sc.LITERAL else None), cs
+        return None, None
+
+    def walk(items, under, flags, out):
+        for op, av in items:
+            if op in (sc.MAX_REPEAT, sc.MIN_REPEAT):
+                walk(av[2], under or av[1] > 1, flags, out)
+            elif op is sc.SUBPATTERN:
+                walk(av[-1], under, flags, out)
+            elif op is sc.BRANCH:
+                if under:
+                    fs = [first(alt, flags) for alt in av[1]]
+                    for i, (lit, _) in enumerate(fs):
+                        if lit is None or chr(lit).isalnum():
+                            continue
+                        for j, (_, cs) in enumerate(fs):
+                            if j != i and cs is not None and lit in cs:
+                                out.append(chr(lit))
+                for alt in av[1]:
+                    walk(alt, under, flags, out)
+    for st in m.tree.body:
+        if not (isinstance(st, ast.Assign) and isinstance(st.value, ast.Call)
+                and ast.unparse(st.value.func) == 're.compile'):
+            continue
+        name = ast.unparse(st.targets[0])
+        got = rx.module_pattern(e, mn, name)
+        if got is None:
+            rep.error('cannot read the pattern %s.%s' % (mn, name))
+            continue
+        n += 1
+        rep.evaluations += 1
+        out = []
+        walk(rx.parse(got[0], got[1]), False, got[1], out)
+        rep.check(not out, 'R7.21', '%s.%s' % (mn, name),
+                  'no delimiter of `%s` doubles as an ordinary character'
+                  % name,
+                  '%s repeats an alternation in which one arm opens with %r '
+                  'and another arm takes %r as an ordinary character: when '
+                  'the delimited arm cannot be completed the pattern falls '
+                  'back to the other one, so an unbalanced %r does not make '
+                  'the argument malformed - `MAIL FROM:<"ab>` is accepted '
+                  'with the address `"ab` and handed to the callback'
+                  % (name, out[0] if out else '', out[0] if out else '',
+                     out[0] if out else ''),
+                  loc='%s:%d' % (m.relpath, st.lineno),
+                  reason='arms of repeated alternations start disjointly')
+    if n < 3:
+        rep.error('anchor vanished: compiled patterns of %s (%d < 3)'
+                  % (mn, n))
